@@ -27,7 +27,13 @@ import (
 	"verif/meta"
 )
 
-const root = "/verif"
+// root is the framework directory (/verif, or a snapshot of it).
+var root = func() string {
+	if r := os.Getenv("VERIF_ROOT"); r != "" {
+		return r
+	}
+	return "/verif"
+}()
 
 var buildDir = filepath.Join(root, ".build")
 
